@@ -308,4 +308,53 @@ theorem nodup_idx_unique {fabrics : List Fabric} (hd : (fabrics.map (·.fabIdx))
       · exact absurd h (hd.1 f hf')
       · exact ih hd.2 hf' hg'
 
+/-! ## D. fabric level -/
+
+/-- every stored privilege is one of the five privileges of the cluster -/
+def CanonicalPrivs (fabrics : List Fabric) : Prop :=
+  ∀ f ∈ fabrics, ∀ e ∈ f.acl, ∃ p : Priv, e.privilege = p.bits
+
+/-- the request is a read or a write (invoke is checked as a write) -/
+def ReadOrWrite (req : AccessReq) : Prop := ∃ op : Op, req.object.operation = op.bits
+
+theorem fabricAllow_iff (f : Fabric) (req : AccessReq)
+    (hst : ∀ e ∈ f.acl, e.fabIdx = some f.fabIdx) (hidx : f.fabIdx = req.accessor.fabIdx)
+    (hc : ∀ e ∈ f.acl, ∃ p : Priv, e.privilege = p.bits) (hop : ReadOrWrite req) :
+    fabricAllow f req req.accessor.auxAclEnabled = true ↔ ∃ e ∈ f.acl, EntryGrants e req := by
+  obtain ⟨op, hop⟩ := hop
+  unfold fabricAllow
+  rw [List.any_eq_true]
+  constructor
+  · rintro ⟨e, he, h⟩
+    obtain ⟨p, hp⟩ := hc e he
+    exact ⟨e, he, ((entryAllow_iff e req p op hp hop).mp h).1⟩
+  · rintro ⟨e, he, h⟩
+    obtain ⟨p, hp⟩ := hc e he
+    exact ⟨e, he, (entryAllow_iff e req p op hp hop).mpr ⟨h, by rw [hst e he, hidx]⟩⟩
+
+theorem auxGranted_iff (f : Fabric) (req : AccessReq) (hop : ReadOrWrite req) :
+    (req.accessor.auxAclEnabled = true ∧ req.accessor.authMode = some AuthMode.group ∧
+      auxGrantedBy f req = true) ↔ AuxGrants f req := by
+  obtain ⟨op, hop⟩ := hop
+  unfold AuxGrants auxGrantedBy
+  have hpo : permsOk req.object PRIV_OPERATE = true ↔ PrivOk Priv.operate.bits req.object :=
+    isOk_iff_privOk req.object Priv.operate op hop
+  refine and_congr Iff.rfl (and_congr Iff.rfl ?_)
+  cases hep : req.object.path.endpoint with
+  | none => simp
+  | some ep =>
+    simp only [Bool.and_eq_true, List.any_eq_true, hpo, subjectsMatches_iff, Option.some.injEq,
+      exists_eq_left', List.contains_eq_mem, decide_eq_true_iff]
+    constructor
+    · rintro ⟨⟨g, hg, ⟨h1, h2⟩, h3⟩, h4⟩
+      refine ⟨g, hg, ?_, h2, h3, h4⟩
+      unfold GroupMapping.hasAux at h1
+      cases hh : g.hasAuxAcl with
+      | none => simp [hh] at h1
+      | some b => simp [hh] at h1; simp [h1]
+    · rintro ⟨g, hg, h1, h2, h3, h4⟩
+      refine ⟨⟨g, hg, ⟨?_, h2⟩, h3⟩, h4⟩
+      unfold GroupMapping.hasAux; simp [h1]
+
+
 end Acl
